@@ -170,7 +170,7 @@ pub fn generate(a: &Args) {
         run_chain(&mut out, &c, rng.next());
     } } } }
     // noise level
-    let nllr = if th { 400_000 } else { 120_000 };
+    let nllr = if th { 1_500_000 } else { 120_000 };
     let noise_cfgs = vec![
         Cfg { ncw: 24, r: 12, psk8: false, pat: None, il: None },
         Cfg { ncw: 24, r: 12, psk8: true, pat: None, il: None },
